@@ -103,31 +103,38 @@ def plan_back_conversion_callable(
         if isinstance(action_for_mapback, DurativeAction):
             tinterval = action_for_mapback.duration
             assert isinstance(tinterval, Interval)
-            dtime = min_time_step
-            if not tinterval.is_left_open():
-                if tinterval.lower.is_constant():
-                    dtime = Fraction(tinterval.lower.constant_value())
-                else:
-                    par_sub_dict: Dict = {}
-                    for paramname, paramvalue in zip(
-                        action_for_mapback.parameters,
-                        action_instance.actual_parameters,
-                    ):
-                        par_sub_dict[paramname] = paramvalue
-                    tlower_with_pars = tinterval.lower.substitute(par_sub_dict)
-                    flu_subs_dict: Dict = {}
-                    for flu_obj in fve.get(tlower_with_pars):
-                        if flu_obj.fluent() in pruned_fluents:
-                            flu_subs_dict[flu_obj] = original_state.get_value(flu_obj)
-                        else:
-                            flu_subs_dict[flu_obj] = state.get_value(flu_obj)
-                    tlower_constant = simplifier.simplify(
-                        tlower_with_pars.substitute(flu_subs_dict)
-                    )
-                    dtime = Fraction(tlower_constant.constant_value())
-            else:
-                # NOTE if open use min step
-                dtime = min_time_step
+
+            def bound_value(bound: FNode) -> Fraction:
+                # value of a duration bound in the state in which the action starts
+                if bound.is_constant():
+                    return Fraction(bound.constant_value())
+                par_sub_dict: Dict = {}
+                for paramname, paramvalue in zip(
+                    action_for_mapback.parameters,
+                    action_instance.actual_parameters,
+                ):
+                    par_sub_dict[paramname] = paramvalue
+                bound_with_pars = bound.substitute(par_sub_dict)
+                flu_subs_dict: Dict = {}
+                for flu_obj in fve.get(bound_with_pars):
+                    if flu_obj.fluent() in pruned_fluents:
+                        flu_subs_dict[flu_obj] = original_state.get_value(flu_obj)
+                    else:
+                        flu_subs_dict[flu_obj] = state.get_value(flu_obj)
+                bound_constant = simplifier.simplify(
+                    bound_with_pars.substitute(flu_subs_dict)
+                )
+                return Fraction(bound_constant.constant_value())
+
+            dtime = bound_value(tinterval.lower)
+            if tinterval.is_left_open():
+                # NOTE the lower bound itself is excluded: go one time step above it,
+                # or half-way to the upper bound if the interval is narrower than that
+                upper = bound_value(tinterval.upper)
+                lower = dtime
+                dtime = lower + min_time_step
+                if dtime > upper or (dtime == upper and tinterval.is_right_open()):
+                    dtime = (lower + upper) / 2
             ttptuples.append((time_now, new_action_instance, dtime))
             time_now = time_now + dtime + min_time_step
         elif isinstance(action_for_mapback, InstantaneousAction):
@@ -314,6 +321,7 @@ class TimedToSequential(engines.engine.Engine, CompilerMixin):
         start_effects_subs: Dict = {}
         for osef, osel in old_start_effects.items():
             start_effects_subs[osef] = osef
+            assigned = False
             for ose in osel:
                 assert isinstance(ose, Effect)
                 if not ose.condition == em.TRUE():
@@ -344,7 +352,14 @@ class TimedToSequential(engines.engine.Engine, CompilerMixin):
                                     )
                 if ose.is_assignment():
                     # NOTE we should never find assignments associated with any other kind of effect
-                    start_effects_subs[ose.fluent] = ose.value
+                    if assigned and ose.fluent.type.is_bool_type():
+                        # several Boolean assignments at the same time: true wins
+                        start_effects_subs[ose.fluent] = em.Or(
+                            start_effects_subs[ose.fluent], ose.value
+                        )
+                    else:
+                        start_effects_subs[ose.fluent] = ose.value
+                    assigned = True
                 elif ose.is_increase():
                     start_effects_subs[ose.fluent] = em.Plus(
                         start_effects_subs[ose.fluent], ose.value
